@@ -79,6 +79,16 @@ namespace OP2Utility
 		stream.Read(mapHeader);
 		CheckMinVersionTag(mapHeader.versionTag);
 
+		// Shifting a 32 bit value by 32 or more bits is undefined
+		if (mapHeader.lgWidthInTiles >= 32) {
+			throw std::runtime_error("Map width is too large.");
+		}
+
+		// Calculate in 64 bits, so a tile count that does not fit MapHeader::TileCount's 32 bit result is detected
+		if ((static_cast<uint64_t>(mapHeader.heightInTiles) << mapHeader.lgWidthInTiles) > UINT32_MAX) {
+			throw std::runtime_error("Map contains too many tiles.");
+		}
+
 		Map map;
 		map.versionTag = mapHeader.versionTag;
 		map.isSavedGame = mapHeader.bSavedGame;
@@ -188,7 +198,8 @@ namespace OP2Utility
 		stream.Read(tileGroup.tileWidth);
 		stream.Read(tileGroup.tileHeight);
 
-		tileGroup.mappingIndices.resize(tileGroup.tileWidth * tileGroup.tileHeight);
+		// Calculate in 64 bits, so the product can not wrap
+		tileGroup.mappingIndices.resize(static_cast<std::size_t>(tileGroup.tileWidth) * tileGroup.tileHeight);
 		stream.Read(tileGroup.mappingIndices);
 
 		stream.Read<uint32_t>(tileGroup.name);
